@@ -1,1 +1,74 @@
 //! Hand-written helper types shared by all universes.
+
+use crate::glue::*;
+use epserde::prelude::*;
+use model::*;
+use std::rc::Rc;
+
+/// A generic structure with a type-parameter field (ε-copied) and a scalar.
+#[derive(Epserde, Debug, Clone)]
+pub struct Holder<A> {
+    pub a: A,
+    pub n: u32,
+}
+
+impl<A: HasTy> HasTy for Holder<A> {
+    fn ty() -> Ty {
+        Ty::User(Rc::new(User {
+            name: "Holder".into(),
+            path: module_path!().into(),
+            is_enum: false,
+            zero: false,
+            reprs: vec![],
+            consts: vec![],
+            variants: vec![Variant {
+                name: "".into(),
+                kind: VKind::Named,
+                fields: vec![
+                    Field { name: "a".into(), ty: A::ty(), eps: true },
+                    Field { name: "n".into(), ty: Ty::Prim(Prim::U32), eps: false },
+                ],
+            }],
+            layout: None,
+        }))
+    }
+}
+
+impl<A: Glue> Glue for Holder<A> {
+    fn from_val(v: &Val) -> Self {
+        let f = v.fields();
+        Holder { a: A::from_val(&f[0]), n: u32::from_val(&f[1]) }
+    }
+    fn walk(&self, w: &mut Walker) -> Val {
+        Val::Struct(vec![self.a.walk(w), self.n.walk(w)])
+    }
+}
+
+impl<A: EpsWalk> EpsWalk for Holder<A> {
+    fn eps_val(&self, w: &mut Walker) -> Val {
+        Val::Struct(vec![self.a.eps_val(w), Val::P(self.n as u128)])
+    }
+}
+
+/// An `ExactSizeIterator` that announces `announced` items and yields the
+/// items of the slice.
+pub struct Lying<'a, T> {
+    pub items: std::slice::Iter<'a, T>,
+    pub announced: usize,
+}
+
+impl<'a, T> Iterator for Lying<'a, T> {
+    type Item = &'a T;
+    fn next(&mut self) -> Option<&'a T> {
+        self.items.next()
+    }
+    fn size_hint(&self) -> (usize, Option<usize>) {
+        (self.announced, Some(self.announced))
+    }
+}
+
+impl<T> ExactSizeIterator for Lying<'_, T> {
+    fn len(&self) -> usize {
+        self.announced
+    }
+}
